@@ -3,7 +3,7 @@
    (lexer -> token stream -> parser -> transforms), proofs in proofs/GenExamples.v. *)
 From Coq Require Import List NArith Bool Arith.
 Import ListNotations.
-From PV Require Import Regex Base LexTables NodeModel ParserBase ParserDecl ParserMain Api GenExamples ParserTables GenTables CSpec TableProofs Generator ParamProofs GenParam ClimbProofs GenParen GenBinop ParserBase ParserMain StreamLib RoundTrip RoundTripGen RoundTripX GenExpr.
+From PV Require Import Regex Base LexTables NodeModel ParserBase ParserDecl ParserMain Api GenExamples ParserTables GenTables CSpec TableProofs Generator ParamProofs GenParam ClimbProofs GenParen GenBinop ParserBase ParserMain StreamLib RoundTrip RoundTripGen RoundTripX GenExpr StmtTrip GenStmt.
 
 (* parse . generate . parse = parse and second generation = first (default configuration) *)
 Theorem C07_roundtrip_decls :
@@ -163,3 +163,32 @@ Example C07_expression_example :
                              K_LPAREN; K_LPAREN; K_ID; K_RPAREN; K_CONDOP; K_LPAREN; K_ID; K_RPAREN; K_COLON; K_LPAREN; K_ID; K_RPAREN; K_RPAREN;
                              K_COMMA; K_ID; K_LPAREN; K_INT_CONST_DEC; K_COMMA; K_LPAREN; K_ID; K_COMMA; K_ID; K_RPAREN; K_RPAREN].
 Proof. exact expression_example. Qed.
+
+(* STATEMENTS without braces over that expression language: expression statements, `;`, return / break / continue / goto,
+   if with and without else, while, do-while, for with every clause present or absent, nested in any way.  Parser side:
+   whenever p_pragmacomp_or_statement (the production behind every sub-statement position) finds the tokens [stoks rp x]
+   of the generated text, it returns exactly x.  The only side conditions are C's own dangling-else rule: in swf the
+   then-branch of an if WITH an else does not end in an if without one (CGenerator adds no braces), and an if without
+   else is not followed by the token `else`. *)
+Theorem C07_parse_of_generated_statement : forall (P: Type) rp (x: st), swf x ->
+  forall (s: ParserBase.pstate P) le stop l0, Spell P le (stoks rp x) -> Up P s (le ++ stop :: l0) ->
+  (sopen x = true -> kind_eqb (tk stop) K_ELSE = false) ->
+  exists f0 N s', (forall f, (f0 <= f)%nat -> p_pragmacomp_or_statement P f s = Ok (N, s')) /\ Up P s' (stop :: l0) /\ strip N = embs x.
+Proof. exact parse_of_generated_statement. Qed.
+Print Assumptions C07_parse_of_generated_statement.
+
+(* generator side: _generate_stmt(add_indent=True) prints [gst rp lv x] at indentation level lv and restores the level *)
+Theorem C07_generator_prints_statement : forall (C: Type) rp (x: st), swf x -> forall fuel lv, (cost x < fuel)%nat ->
+  generate_stmt C rp fuel (embS C x) true lv = GOk (gst rp lv x, lv).
+Proof. exact gst_prints. Qed.
+Print Assumptions C07_generator_prints_statement.
+
+(* ... and that text, blanks and newlines removed, is the concatenation of the spellings of [stoks rp x] *)
+Theorem C07_statement_text_is_its_tokens : forall rp (x: st), sexprs (eok rp) x -> forall lv, despace2 (gst rp lv x) = spell (stoks rp x).
+Proof. intros rp x Hx lv. rewrite gst_vtxt. exact (gst_tokens rp (ssize x) x (le_n _) Hx lv). Qed.
+Print Assumptions C07_statement_text_is_its_tokens.
+
+(* non-vacuity: a for loop over an if / else-if ladder with return, break and a do-while *)
+Example C07_statement_example :
+  swf ex_s /\ exists t, generate_stmt nat false 60 (embS nat ex_s) true Z0 = GOk (t, Z0) /\ despace2 t = spell (stoks false ex_s).
+Proof. split; [exact (proj1 statement_example)|]. eexists. split; [exact (proj2 statement_example)|vm_compute; reflexivity]. Qed.
